@@ -23,7 +23,18 @@ while read -r line; do
   [ -z "$line" ] && continue
   for f in "$src"/*_test.go; do
     b=$(basename "$f")
-    case "$line" in *"$b"*) rel=$(echo "$line" | grep -o '[A-Za-z0-9_./-]*'"$b" | head -1); demos+=("$rel"); cp "$f" "$out/$b";; esac
+    case "$line" in
+      *"->"*)
+        # "name -> path": the left side names the demo file, the right side is where it goes
+        lhs=$(echo "${line%%->*}" | tr -d '` ' ); rhs=$(echo "${line#*->}" | tr -d '` ')
+        [ "$(basename "$lhs")" = "$b" ] || continue
+        case "$rhs" in *.go) rel=$rhs;; *) rel="${rhs%/}/$b";; esac
+        demos+=("$rel"); cp "$f" "$out/$b";;
+      *"$b"*)
+        rel=$(echo "$line" | grep -o '[A-Za-z0-9_./-]*'"$b" | tail -1)
+        [ "$(basename "$rel")" = "$b" ] || continue
+        demos+=("$rel"); cp "$f" "$out/$b";;
+    esac
   done
 done < "$src/demo_path.txt"
 if [ ${#demos[@]} -eq 0 ]; then
@@ -34,9 +45,12 @@ place_demos() { for d in "${demos[@]}"; do cp "$out/$(basename "$d")" "$wt/$d"; 
 remove_demos() { for d in "${demos[@]}"; do rm -f "$wt/$d"; done; }
 pkgs=$(for d in "${demos[@]}"; do echo "./$(dirname "$d")/"; done | sort -u | tr '\n' ' ')
 runpat=$(grep -ho '^func Test[A-Za-z0-9_]*' "$out"/*_test.go | sed 's/func //' | sort -u | paste -sd'|')
+# optional build tags for the two demo runs only (e.g. DEMO_TAGS=duckdb_arrow)
+demo_tags=""; [ -n "${DEMO_TAGS:-}" ] && demo_tags="-tags=$DEMO_TAGS"
+echo "demo tags: ${DEMO_TAGS:-<none>}" >> "$log"
 # (4) demo passes without patch
 place_demos
-go test -vet=off -count=1 -run "^($runpat)\$" $pkgs >> "$log" 2>&1; clean_demo=$?
+go test -vet=off -count=1 $demo_tags -run "^($runpat)\$" $pkgs >> "$log" 2>&1; clean_demo=$?
 remove_demos
 # apply
 git apply "$out/patch.diff" >> "$log" 2>&1 || { echo "APPLY FAILED" >> "$log"; applied=1; }
@@ -59,7 +73,7 @@ if [ $suite -ne 0 ]; then
 fi
 # (3) demo fails with patch
 place_demos
-go test -vet=off -count=1 -run "^($runpat)\$" $pkgs > "$out/demo_with_patch.log" 2>&1; patched_demo=$?
+go test -vet=off -count=1 $demo_tags -run "^($runpat)\$" $pkgs > "$out/demo_with_patch.log" 2>&1; patched_demo=$?
 remove_demos
 files=$(git diff --name-only | paste -sd, )
 cd /; git -C /repo worktree remove --force "$wt"
